@@ -10,9 +10,12 @@ theorem holds for every fuel).  All theorems quantify over ALL rune lists — va
 invalid ones, any length.  A "token gap" is a point of the text at which the lexer stands
 between two calls of `Next`.
 
-The parser-level part of the property (a line break after `,`, a binary operator, `|`, `.`
-leaves the syntax tree unchanged; blank lines; trailing comments between statements) has no
-Lean parser model here: it is checked by the correspondence harness on the real parser only.
+The parser-level part of the property for expressions (a line break after a binary operator,
+after the `.` of a method call, after the opening bracket / after `,` / before the closing
+bracket of call arguments and list literals leaves the syntax tree unchanged) is proved in
+ParseNewlineProps.lean (`parse_newline_invariant`) over C01's Pratt parser model.  Line breaks
+in map/set literals and after `|`, blank lines and trailing comments between statements are
+checked by the correspondence harness on the real parser only.
 -/
 namespace Risor.C20
 
